@@ -16,6 +16,10 @@ class SimAbort(BaseException):
     """Unwinds a logical thread when the run is aborted (deadlock, step cap)."""
 
 
+class SelfDeadlock(Exception):
+    """Uncontended mode only: the single caller would block on itself forever."""
+
+
 class LThread:
     __slots__ = ('tid', 'fn', 'gate', 'thread', 'done', 'blocked_on', 'error', 'started')
 
@@ -119,10 +123,9 @@ def make_policy(spec, nthreads):
 # ------------------------------------------------------------------------------
 
 class Scheduler:
-    def __init__(self, policy, log, trace_files, step_cap=20000):
+    def __init__(self, policy, log, step_cap=20000):
         self.policy = policy
         self.log = log
-        self.trace_files = frozenset(trace_files)
         self.step_cap = step_cap
         self.threads = []
         self.cur = None
@@ -139,20 +142,6 @@ class Scheduler:
         t = LThread(len(self.threads), fn)
         self.threads.append(t)
         return t
-
-    # -- trace functions ----------------------------------------------------------
-    def _gtrace(self, frame, event, arg):
-        if frame.f_code.co_filename in self.trace_files:
-            frame.f_trace_opcodes = True
-            frame.f_trace_lines = False
-            return self._ltrace
-        return None
-
-    def _ltrace(self, frame, event, arg):
-        if event == 'opcode':
-            co = frame.f_code
-            self.yield_point(('op', co.co_name, frame.f_lasti))
-        return self._ltrace
 
     # -- core ---------------------------------------------------------------------
     def runnable(self):
@@ -209,11 +198,7 @@ class Scheduler:
         t.started = True
         try:
             if self.abort_reason is None:
-                sys.settrace(self._gtrace)
-                try:
-                    t.fn()
-                finally:
-                    sys.settrace(None)
+                t.fn()
         except SimAbort:
             pass
         except BaseException as e:      # a bug in the harness program itself
@@ -249,14 +234,22 @@ class Scheduler:
             self.main_gate.release()
 
     def run(self):
+        # 'opcode' events are only delivered if some frame had f_trace_opcodes set before
+        # the trace function is installed (CPython 3.12)
+        global _ACTIVE
+        if _TOOL is None:
+            raise RuntimeError('threadsim.install() was not called')
         for t in self.threads:
             t.thread = threading.Thread(target=self._body, args=(t,), daemon=True)
             t.thread.start()
+        _ACTIVE = self
         first = self.policy.choose(self, self.runnable(), None, True)
+        self.first = first
         self.log.add('start', first)
         self.cur = self.threads[first]
         self.cur.gate.release()
         self.main_gate.acquire()
+        _ACTIVE = None
         for t in self.threads:
             t.thread.join()
         self.cur = None
@@ -331,6 +324,12 @@ class SimLock(SimRLock):
 
     def acquire(self, blocking=True, timeout=-1):
         s = self.sched
+        if s.cur is None:
+            if self.owner is not None:
+                raise SelfDeadlock('non re-entrant lock acquired twice by the same caller')
+            self.owner = 'main'
+            self.count = 1
+            return True
         if s.abort_reason is not None:
             raise SimAbort()
         me = s.cur
@@ -346,35 +345,131 @@ class SimLock(SimRLock):
     __enter__ = acquire
 
 
+# ------------------------------------------------------------------------------
+# Pre-emption points at every bytecode: sys.monitoring INSTRUCTION events, enabled
+# *locally* on the code objects of the files under test, once per process, never
+# toggled afterwards (sys.settrace re-instruments all executing code whenever the set
+# of tracing threads changes, which crashes CPython 3.12.1 when another thread is
+# parked inside a callback).
+
+_TOOL = None
+_ACTIVE = None        # the Scheduler whose logical threads are running, if any
+_BUDGET = None        # an OpcodeBudget armed in the main thread, if any
+_FILES = frozenset()
+
+
+def _collect_code(module, files):
+    import types
+    seen = set()
+    out = []
+
+    def add_code(co):
+        if id(co) in seen:
+            return
+        seen.add(id(co))
+        if co.co_filename in files:
+            out.append(co)
+        for k in co.co_consts:
+            if isinstance(k, types.CodeType):
+                add_code(k)
+
+    def visit(obj, depth=0):
+        if id(obj) in seen or depth > 6:
+            return
+        if isinstance(obj, types.FunctionType):
+            seen.add(id(obj))
+            add_code(obj.__code__)
+            w = getattr(obj, '__wrapped__', None)
+            if w is not None:
+                visit(w, depth + 1)
+        elif isinstance(obj, (staticmethod, classmethod)):
+            visit(obj.__func__, depth + 1)
+        elif isinstance(obj, property):
+            for f in (obj.fget, obj.fset, obj.fdel):
+                if f is not None:
+                    visit(f, depth + 1)
+        elif isinstance(obj, type):
+            if getattr(obj, '__module__', None) != module.__name__:
+                return
+            seen.add(id(obj))
+            for v in list(vars(obj).values()):
+                visit(v, depth + 1)
+        else:
+            f = getattr(obj, '__func__', None) or getattr(obj, 'func', None)
+            if isinstance(f, types.FunctionType):
+                visit(f, depth + 1)
+
+    for v in list(vars(module).values()):
+        visit(v)
+    return out
+
+
+def install(module):
+    """Instrument every code object defined in *module*'s source file (idempotent)."""
+    global _TOOL, _FILES
+    mon = sys.monitoring
+    files = frozenset([module.__file__])
+    if _TOOL is None:
+        for tool in (mon.PROFILER_ID, mon.COVERAGE_ID, 3, 4):
+            try:
+                mon.use_tool_id(tool, 'threadsim')
+            except ValueError:
+                continue
+            _TOOL = tool
+            break
+        else:
+            raise RuntimeError('no free sys.monitoring tool id')
+        mon.register_callback(_TOOL, mon.events.INSTRUCTION, _on_instruction)
+    codes = _collect_code(module, files)
+    for co in codes:
+        mon.set_local_events(_TOOL, co, mon.events.INSTRUCTION)
+    _FILES = _FILES | files
+    return len(codes)
+
+
+def _on_instruction(code, offset):
+    s = _ACTIVE
+    if s is not None:
+        if s.cur is not None and s.cur.thread.ident == threading.get_ident():
+            s.yield_point(('op', code.co_name, offset))
+        return
+    b = _BUDGET
+    if b is not None:
+        b.left -= 1
+        if b.left < 0:
+            raise OpcodeBudget.Exceeded()
+
+
 class OpcodeBudget:
-    """Context manager: run code in the calling thread with an opcode budget over
-    the traced files (converts an endless loop into StepCap)."""
+    """Context manager for the main thread: bytecode budget over the instrumented files
+    (turns an endless loop in the code under test into OpcodeBudget.Exceeded)."""
 
     class Exceeded(BaseException):
         pass
 
-    def __init__(self, trace_files, budget):
-        self.files = frozenset(trace_files)
+    def __init__(self, budget):
         self.left = budget
-
-    def _g(self, frame, event, arg):
-        if frame.f_code.co_filename in self.files:
-            frame.f_trace_opcodes = True
-            frame.f_trace_lines = False
-            return self._l
-        return None
-
-    def _l(self, frame, event, arg):
-        if event == 'opcode':
-            self.left -= 1
-            if self.left < 0:
-                raise OpcodeBudget.Exceeded()
-        return self._l
+        self.start = budget
 
     def __enter__(self):
-        sys.settrace(self._g)
+        global _BUDGET
+        _BUDGET = self
         return self
 
     def __exit__(self, *a):
-        sys.settrace(None)
+        global _BUDGET
+        _BUDGET = None
         return False
+
+    @property
+    def used(self):
+        return self.start - self.left
+
+
+def selfcheck(fn):
+    """Harness sanity: instruction events must really be delivered."""
+    with OpcodeBudget(1 << 60) as b:
+        fn()
+    if b.used < 10:
+        raise RuntimeError('threadsim: no instruction events delivered (got %d)' % b.used)
+    return b.used
